@@ -60,6 +60,39 @@ class ScriptedOS:
                 walk(c)
         walk(t)
         self.root = t[0]
+        # dynamic part: forks that happen while the killer works.  schedule = [(call index, selector)]: just before the OS answers its
+        # k-th call the selected live process of the tree forks a child
+        self.schedule, self.fresh, self.calls = [], [], 0
+        self.born, self.listed_at, self.parent = {}, {}, {}
+        for p_, cs in list(self.children.items()):
+            for c in cs:
+                self.parent[c] = p_
+
+    def tick(self, listing_of=None):
+        """one operating-system call: pending forks first, then the call is answered"""
+        k = self.calls
+        for (when, sel) in [x for x in self.schedule if x[0] == k]:
+            live = [p for p in self.alive if self.alive[p]]
+            if live and self.fresh:
+                par = live[sel % len(live)]
+                c = self.fresh.pop()
+                self.children.setdefault(par, []).append(c)
+                self.children[c] = []
+                self.late[c] = False
+                self.alive[c] = True
+                self.born[c] = k
+                self.parent[c] = par
+        if listing_of is not None:
+            for p in (listing_of() if callable(listing_of) else listing_of):
+                self.listed_at.setdefault(p, k)
+        self.calls += 1
+
+    def as_tree(self):
+        """the history as a static tree: a child is `late` when it was born after its parent's children were listed"""
+        def node(p):
+            late = p in self.born and (self.parent[p] not in self.listed_at or self.born[p] > self.listed_at[self.parent[p]])
+            return (p, bool(late), [node(c) for c in self.children.get(p, [])])
+        return node(self.root)
 
     # what the killer can see under p right now: children that exist already, of a parent that is still alive (else re-parented)
     def visible_children(self, p):
@@ -75,9 +108,10 @@ class ScriptedOS:
         return True
 
 
-def run_real(U, t, path, fail_platform=False):
+def run_real(U, t, path, fail_platform=False, schedule=(), fresh=(), want_os=False):
     """run the real function on the scripted OS; returns (kills in order, joined count, error)"""
     osx = ScriptedOS(t)
+    osx.schedule, osx.fresh = list(schedule), list(fresh)
     saved = (U.os, U.subprocess, U.psutil, U.warnings)
 
     def check_output(cmd, stderr=None, text=None, **kw):
@@ -86,12 +120,14 @@ def run_real(U, t, path, fail_platform=False):
         if list(cmd[:2]) != ["pgrep", "-P"]:
             raise AssertionError(f"unexpected command {cmd}")
         osx.listings += 1
+        osx.tick(listing_of=[int(cmd[2])])
         cs = osx.visible_children(int(cmd[2]))
         if not cs:
             raise real_subprocess.CalledProcessError(1, cmd)
         return "".join(f"{c}\n" for c in cs)
 
     def os_kill(pid, sig):
+        osx.tick()
         if not osx.kill(pid):
             raise OSError(errno.ESRCH, "No such process")
 
@@ -106,6 +142,7 @@ def run_real(U, t, path, fail_platform=False):
 
         def children(self, recursive=False):
             # psutil/__init__.py: one snapshot of the process table, then the stack walk
+            osx.tick(listing_of=lambda: list(osx.alive))
             snap = {p: list(osx.visible_children(p)) for p in osx.alive}
             if not recursive:
                 return [PProcess(c, False) for c in snap[self.pid]]
@@ -121,6 +158,7 @@ def run_real(U, t, path, fail_platform=False):
             return ret
 
         def kill(self):
+            osx.tick()
             if not osx.kill(self.pid):
                 raise NoSuchProcess(self.pid)
 
@@ -147,6 +185,8 @@ def run_real(U, t, path, fail_platform=False):
         err = f"{type(e).__name__}: {e}"[:200]
     finally:
         U.os, U.subprocess, U.psutil, U.warnings = saved
+    if want_os:
+        return osx.kills, osx.joined, err, osx
     return osx.kills, osx.joined, err
 
 
@@ -235,7 +275,91 @@ def differential(ctx, n_cases):
             "model_vs_real": model_bad[:5], "n_model_vs_real": len(model_bad), "error": None if ok else out[-400:]}
 
 
+def dynamic_differential(ctx, n_cases):
+    """forks at arbitrary moments of the sweep (before / after the parent was listed, by processes forked during the sweep themselves):
+    the history is turned into a tree with `late` flags (born after the parent's children were listed) and the real kills and the real
+    survivors are compared with Model/KillTree.v on that tree"""
+    if sys.path[0] != vlib.REPO:
+        sys.path.insert(0, vlib.REPO)
+    import loky.backend.utils as U
+    rng = random.Random(ctx.seed + 67)
+    cases, bad = [], []
+    stats = {"forks": 0, "late": 0, "visible": 0}
+    for i in range(n_cases):
+        pids = rng.sample(range(2, 2900), 80)
+        t = gen_tree(rng, pids, rng.choice([1, 2, 3, 4]), 0.0)
+        n0 = len(all_pids(t))
+        sched = sorted((rng.randint(0, 2 * n0 + 2), rng.randint(0, 10 ** 6)) for _ in range(rng.choice([1, 2, 4, 8])))
+        for path in ("posix", "psutil"):
+            kills, joined, err, osx = run_real(U, t, path, schedule=sched, fresh=pids[:20], want_os=True)
+            ht = osx.as_tree()
+            vis = prune(ht)
+            spec = postorder(vis)
+            surv = sorted(p for p in osx.alive if osx.alive[p])
+            want_surv = sorted(set(all_pids(ht)) - set(spec))
+            stats["forks"] += len(osx.born)
+            nl = len(all_pids(ht)) - len(spec)
+            stats["late"] += nl; stats["visible"] += len(osx.born) - min(nl, len(osx.born))
+            why = []
+            if err:
+                why.append(f"{path} path raised {err}")
+            elif sorted(kills) != sorted(spec):
+                missed = sorted(set(spec) - set(kills))
+                why.append(f"{path} path: processes that existed when their parent's children were listed are not killed: {missed}" if missed else
+                           f"{path} path: kills {kills} are not one per visible process {sorted(spec)}")
+            elif children_first(kills, vis):
+                o = children_first(kills, vis)
+                why.append(f"{path} path: {o[1]} is killed before its descendant {o[0]}")
+            elif surv != want_surv:
+                why.append(f"{path} path: survivors {surv}, the model says {want_surv}")
+            if joined != 1 and not err:
+                why.append(f"{path} path: the worker is joined {joined} times")
+            if why:
+                bad.append({"tree": coq_tree(ht), "fork_schedule": sched, "why": why, "kills": kills, "specification": spec})
+            cases.append((ht, path, kills))
+    sample = cases[:160]
+    not_ready = vlib.ensure_built(["KillTree"], ["Model/KillTree.vo"])
+    model_bad, ok, out = [], True, ""
+    if not not_ready:
+        rows = ";\n  ".join(f"({'true' if path == 'psutil' else 'false'}, {coq_tree(ht)})" for ht, path, _ in sample)
+        txt = ("From Coq Require Import List Arith Bool.\nFrom LokyV Require Import Lib.KillTreeLib Gen.KillTree Model.KillTree.\nImport ListNotations.\n"
+               "Definition code (c : bool * ptree) : list nat :=\n"
+               "  if fst c then ukills (exec_psutil psutil_kill_prog (snd c)) else exec_posix posix_recursive_kill_prog (snd c).\n"
+               f"Eval vm_compute in map code [\n  {rows}].\n")
+        ok, out = vlib.coq_eval(f"c06_killdyn_{os.getpid()}", txt)
+        model = None
+        if ok and "=" in out:
+            try:
+                model = json.loads(out.split("=", 1)[1].rsplit(":", 1)[0].replace(";", ","))
+            except ValueError:
+                model = None
+        if model is None or len(model) != len(sample):
+            ok = False
+        else:
+            for (ht, path, kills), m in zip(sample, model):
+                if m != kills:
+                    model_bad.append({"tree": coq_tree(ht), "path": path, "model": m, "real": kills})
+    return {"ok": ok, "cases": len(cases), "evaluated_in_coq": 0 if not_ready else len(sample), "forks": stats, "model_not_evaluated": not_ready,
+            "against_the_specification": bad[:5], "n_against_the_specification": len(bad), "model_vs_real": model_bad[:5],
+            "n_model_vs_real": len(model_bad), "error": None if ok else out[-400:]}
+
+
 def check(ctx):
+    dd = dynamic_differential(ctx, 150 if ctx.tier == "quick" else 2500)
+    if dd["n_against_the_specification"]:
+        rp = vlib.write_replay(ctx, "killdyn", {"kind": "the real kill_process_tree, with forks at scripted moments of the sweep, does not behave as Model/KillTree.v", "detail": dd})
+        ctx.violations.append((f"kill_process_tree with forks during the sweep: {dd['n_against_the_specification']} of {dd['cases']} histories: "
+                               + dd["against_the_specification"][0]["why"][0][:170], rp, False))
+    elif not dd["ok"] or dd["n_model_vs_real"]:
+        rp = vlib.write_replay(ctx, "killdyn", {"kind": "Model/KillTree.v on the histories with forks did not run or differs from the real functions", "detail": dd})
+        ctx.violations.append(("kill_process_tree with forks: model evaluation " + (f"differs on {dd['n_model_vs_real']} histories" if dd["n_model_vs_real"]
+                                                                                   else "did not run: " + str(dd["error"])[:120]), rp, True))
+    out = check_static(ctx)
+    out["kill_tree_dynamic_differential"] = dd
+    return out
+
+
+def check_static(ctx):
     kd = differential(ctx, 300 if ctx.tier == "quick" else 4000)
     if kd["n_against_the_specification"]:
         rp = vlib.write_replay(ctx, "killtree", {"kind": "the real kill_process_tree on a scripted process table does not kill the tree as proved", "detail": kd})
